@@ -31,6 +31,11 @@ def core(line):
     return out
 
 
+def canon(line):
+    """Which variable of a left-recursive cycle is reported is not part of any property."""
+    return re.sub(r"chk=rec:\S+", "chk=rec", line)
+
+
 def promote_core_mismatch(ctx, dis, key, harness):
     """A disagreement in the README-level observables on a concrete input is a failing input."""
     n = 0
